@@ -141,10 +141,10 @@ def idom (g : Digraph) (e v : Nat) : Option Nat :=
   if reachB g e v && v != e then idomOf g.n (domB g e) v else none
 
 /-- dominance frontier membership, by definition -/
-def dfOf (g : Digraph) (dom : Nat → Nat → Bool) (x y : Nat) : Bool :=
-  (List.range g.n).any (fun p => g.edgeB p y && dom x p) && !(dom x y && x != y)
+def dfOf (preds : Nat → List Nat) (dom : Nat → Nat → Bool) (x y : Nat) : Bool :=
+  (preds y).any (fun p => dom x p) && !(dom x y && x != y)
 
-def dfB (g : Digraph) (e x y : Nat) : Bool := dfOf g (domB g e) x y
+def dfB (g : Digraph) (e x y : Nat) : Bool := dfOf g.preds (domB g e) x y
 
 def pdomB (g : Digraph) (x d v : Nat) : Bool := domB g.rev x d v
 def ipdom (g : Digraph) (x v : Nat) : Option Nat := idom g.rev x v
@@ -164,7 +164,10 @@ def domT (tab : Array Nat) (r : Nat) (d v : Nat) : Bool :=
 def idomT (g : Digraph) (e : Nat) (tab : Array Nat) (r : Nat) (v : Nat) : Option Nat :=
   if r.testBit v && v != e then idomOf g.n (domT tab r) v else none
 
-def dfT (g : Digraph) (tab : Array Nat) (r : Nat) (x y : Nat) : Bool := dfOf g (domT tab r) x y
+def predTable (g : Digraph) : Array (List Nat) := ((List.range g.n).map g.preds).toArray
+
+def dfT (ptab : Array (List Nat)) (tab : Array Nat) (r : Nat) (x y : Nat) : Bool :=
+  dfOf (fun y => ptab.getD y []) (domT tab r) x y
 
 /-- the validator for a claimed immediate-dominator map (`out[v] = none` ⇔ no idom) -/
 def checkIdom (g : Digraph) (e : Nat) (out : List (Option Nat)) : Bool :=
